@@ -71,6 +71,9 @@ SHAPES = {
     "get_10_ka": (b"GET", b"1.0", b"keep-alive", None),
     # a body that turns malformed after a good head and a good first chunk (last position only)
     "post_bad": (b"POST", b"1.1", None, "bad"),
+    # a POST that also offers an h2c upgrade: a request with a body is never upgraded (it is served over HTTP/1.1 and the
+    # connection stays persistent) - and what it offered must not linger for the requests that follow it
+    "post_up": (b"POST", b"1.1", None, "cl_up"),
 }
 # abort: raises after the response start + one chunk (no content-length); after_ka: like after, and the application
 # sends its own `connection: keep-alive` response header
@@ -86,6 +89,9 @@ def req_bytes(i: int, shape: str) -> tuple:
     body = b"body-%d" % i
     if bk == "cl":
         return h1_request(method, b"/r%d" % i, headers, body=body, version=version), body
+    if bk == "cl_up":
+        up = [(b"Connection", b"Upgrade, HTTP2-Settings"), (b"Upgrade", b"h2c"), (b"HTTP2-Settings", b"AAMAAABkAAQAoAAAAAIAAAAA")]
+        return h1_request(method, b"/r%d" % i, up, body=body, version=version), body
     if bk == "chunked":
         return h1_request(method, b"/r%d" % i, headers, chunked=[body[:3], body[3:]], version=version), body
     if bk == "bad":
@@ -335,3 +341,10 @@ def _half_closed(rec: Any) -> bool:
 
 
 execute = std_execute(build, oracle)
+
+
+# wave h documentation (what was added to the enumeration; see DESIGN.md 11.0)
+_WAVE_H = ("+ request shape post_up (a POST with a body that also offers an h2c upgrade: served over HTTP/1.1, connection stays "
+           "persistent, nothing of the offer lingers for later requests) in every pipeline position the other persistent shapes take")
+RULE = RULE + " " + _WAVE_H
+BOUNDS_DOC = {k: v + " " + _WAVE_H for k, v in BOUNDS_DOC.items()}
